@@ -627,3 +627,75 @@ def r12_9(run):
 
 
 RULES.append(("R12.9", r12_9))
+
+EXPLANATION += (' ' + "(R12.10) net['_internal_data'] is the one container that survives a call (option reuse_internal_data): the only function "
+                "that stores into it (directly or through a local alias, by item store, update or setdefault) is build_system_matrix, and the only keys are "
+                "the sparsity pattern entries 'hydraulic_data_sorting' and 'hydraulic_matrix'. Anything else kept there (a looked-up pump curve, a fluid "
+                "value, a table column) is read again by the next call although the tables it came from may have been edited in between.")
+
+_INTERNAL_DATA_WRITERS = {"pandapipes.pf.build_system_matrix.build_system_matrix": {"hydraulic_data_sorting", "hydraulic_matrix"}}
+
+
+def r12_10(run):
+    """who may write the state that outlives a call: with reuse_internal_data=True the dictionary net['_internal_data'] is kept from one
+    pipeflow to the next.  What it holds must depend on the structure of the net only (the sparsity pattern, valid as long as
+    only_update_hydraulic_matrix is legitimate); a value derived from table entries or std types would make the next result depend on
+    the history of the net object."""
+    ix = run.index
+    n_sites = 0
+    n_funcs = 0
+    for fi in ix.all_functions():
+        if not fi.module.startswith("pandapipes") or ".test." in fi.module:
+            continue
+        src = U(fi.raw_node)
+        if "_internal_data" not in src:
+            continue
+        n_funcs += 1
+        run.analysed(fi)
+        aliases = set()
+        for st in ast.walk(fi.raw_node):
+            if isinstance(st, ast.Assign) and "_internal_data" in U(st.value) and isinstance(st.value, (ast.Subscript, ast.Call, ast.Attribute, ast.Name)):
+                # an alias of the container itself (net["_internal_data"], net.get("_internal_data"), net._internal_data), not of an entry
+                v = st.value
+                is_container = (isinstance(v, ast.Subscript) and const_str(v.slice) == "_internal_data") or \
+                    (isinstance(v, ast.Call) and isinstance(v.func, ast.Attribute) and v.func.attr in ("get", "setdefault")
+                     and v.args and const_str(v.args[0]) == "_internal_data") or \
+                    (isinstance(v, ast.Attribute) and v.attr == "_internal_data")
+                if is_container:
+                    aliases |= {t.id for t in st.targets if isinstance(t, ast.Name)}
+
+        def is_container_expr(e):
+            if isinstance(e, ast.Name) and e.id in aliases:
+                return True
+            if isinstance(e, ast.Subscript) and const_str(e.slice) == "_internal_data":
+                return True
+            if isinstance(e, ast.Attribute) and e.attr == "_internal_data":
+                return True
+            return False
+
+        allowed = _INTERNAL_DATA_WRITERS.get(fi.qualname, set())
+        for st in ast.walk(fi.raw_node):
+            sites = []
+            if isinstance(st, (ast.Assign, ast.AugAssign, ast.AnnAssign)):
+                tg = st.targets if isinstance(st, ast.Assign) else [st.target]
+                for t in tg:
+                    if isinstance(t, ast.Subscript) and is_container_expr(t.value):
+                        sites.append((const_str(t.slice), st))
+            elif isinstance(st, ast.Call) and isinstance(st.func, ast.Attribute) and st.func.attr in ("update", "setdefault", "__setitem__") \
+                    and is_container_expr(st.func.value):
+                ks = [kw.arg for kw in st.keywords] or [const_str(a) if const_str(a) is not None else U(a) for a in st.args[:1]]
+                for k in ks:
+                    sites.append((k, st))
+            for k, node in sites:
+                n_sites += 1
+                run.ob("%s|_internal_data[%s]|whitelisted-writer-and-key" % (fi.short, k), k in allowed,
+                       "only build_system_matrix stores into net['_internal_data'], and only the sparsity pattern "
+                       "('hydraulic_data_sorting', 'hydraulic_matrix'): the container outlives the call under reuse_internal_data", run.where(fi, node))
+    run.stat("functions_touching_internal_data", n_funcs)
+    run.stat("stores_into_internal_data", n_sites)
+    if n_sites < 2:
+        raise AnalysisError("the stores of the sparsity pattern into net['_internal_data'] were not found (%d sites in %d functions)" % (n_sites, n_funcs))
+    run.floor(2)
+
+
+RULES.append(("R12.10", r12_10))
